@@ -24,7 +24,7 @@ pub fn check_graph(item: u64, g: &GraphSpec, desc: &str, sig: &[Vec<isize>], acc
         acc.count("not_accepted_by_build_sampler");
         return;
     };
-    let Some(tv) = TableView::from_json(&s.json()) else {
+    let Some(tv) = s.table_view() else {
         acc.count("harness_errors");
         return;
     };
